@@ -478,6 +478,8 @@ pub struct Snapshot {
     pub put_queries: Vec<Id>,
     pub put_senders: Vec<(Id, usize)>,
     pub get_senders: Vec<(Id, usize)>,
+    /// Every retained request: (transaction id, sent to, sent at in ns).
+    pub inflight: Vec<(u32, SocketAddrV4, u64)>,
     pub inflight_raw: usize,
     pub inflight_live: usize,
     pub inflight_capacity: usize,
